@@ -112,8 +112,12 @@ func buildWitness(c *Case) []WOp {
 				}
 			}
 			peers[o.N] = q
-			order = append(order, q)
 			w.out = append(w.out, WOp{K: "op", I: i})
+			if s.Refused != "" {
+				q.st = 2 // the relay refused it: the model must refuse it too, nothing else to schedule
+				continue
+			}
+			order = append(order, q)
 		case "leave":
 			q := peers[o.N]
 			if q.cut || q.st == 2 {
@@ -212,7 +216,7 @@ func (c Case) coq() string {
 			o := c.Ops[wo.I]
 			switch o.K {
 			case "join":
-				ops = append(ops, lib.App("OJoin", lib.App("mkreq", lib.N(o.N), lib.Str("/session/"+c.Topic), lib.Str(c.Topic), coqStrs(o.Scopes), lib.Nat(c.Cap))))
+				ops = append(ops, lib.App("OJoin", lib.App("mkreq", lib.N(o.N), lib.Str("/session/"+c.Topic+o.TS), lib.Str(c.Topic+o.TS), coqStrs(o.Scopes), lib.Nat(c.Cap))))
 			case "leave":
 				ops = append(ops, lib.App("OLeave", lib.N(o.N)))
 			case "send":
@@ -222,6 +226,9 @@ func (c Case) coq() string {
 	}
 	var seen []string
 	for _, s := range c.Seen {
+		if s.Refused != "" && len(s.Frames) == 0 {
+			continue // refused by the relay: the model, given the same request, must have no such connection
+		}
 		fr := make([]string, len(s.Frames))
 		for i, f := range s.Frames {
 			fr[i] = lib.Tuple(lib.N(uint64(f.MT)), coqNs(f.Syms))
